@@ -274,7 +274,7 @@ impl<'a> P<'a> {
     fn pi(&mut self) -> Result<String, XmlError> {
         // at "<?"
         let st = std::str::from_utf8(self.rest()).unwrap_or("");
-        match st.find("?>") {
+        match st.get(2..).and_then(|t| t.find("?>")).map(|e| e + 2) {
             Some(e) => {
                 let body = st[2..e].to_string();
                 let target: String = body.chars().take_while(|c| is_name_char(*c)).collect();
